@@ -313,7 +313,7 @@ func runC07(c *Ctx) {
 		}
 	}
 	// generated workspaces, generic classification
-	nWS := c.N(2000, 30000)
+	nWS := c.N(2000, 100000)
 	root := NewRng(c.Seed).Fork(7)
 	parallel(nWS, 14, func(i int) {
 		r := root.Fork(uint64(i))
